@@ -30,6 +30,9 @@ def enabled(tree, meta):
     dirs = sorted(p for p, c in med.items() if c is DIR)
     for d in dirs:
         out.append((ops.create(d, FMT[d]), m2, cont))
+        kids = sorted(p for p in dirs if ref.parent(p) == d)
+        if kids and meta.get("ignores", True):   # sealed on its own while a sub-folder (possibly a nested root) is excluded
+            out.append((ops.create(d, FMT[d], i=[kids[0].split("/")[-1] + "/"]), m2, cont))
     out.append((ops.create("", FMT[""]), m2, cont))
     out.append((ops.create("", ["md5", "c4"], n=True), m2, cont))
     out.append((ops.create("", ["c4", "sha1"]), m2, cont))
@@ -76,6 +79,16 @@ def judge(pre, op, post, res, obs, meta):
           exc=(res.exc or "").split(":")[0], where=res.tb[-1][1] if res.tb else None)
         return v
     med = ref.media(pre)
+    # entries excluded by the effective patterns (those of the latest generation of the history at R plus the ones given) are
+    # outside this run: not recorded, and a history below an excluded folder gets no generation
+    gens_R = ref.generations(pre, R)
+    eff = list(ref.read_manifest(gens_R[-1]["bytes"])["ignore"] or ref.DEFAULT_PATTERNS) if gens_R else list(ref.DEFAULT_PATTERNS)
+    eff += [g for g in (o.get("i") or []) if g not in eff]
+    eff += [g for g in ref.DEFAULT_PATTERNS if g not in eff]
+    if len(eff) > len(ref.DEFAULT_PATTERNS) and not sf:
+        rel_R = lambda p: p[len(R) + 1:] if R else p
+        med = {p: c for p, c in med.items() if not within(R, p) or p == R or not ref.ignored(eff, rel_R(p), c is DIR)}
+        sub_roots = [r for r in sub_roots if not ref.ignored(eff, rel_R(r), True)]
     # histories in scope: R itself (created if new) plus every existing history below R; an existing history
     # *above* R is not touched by a command run at R
     roots = sorted(set(sub_roots) | {R})
